@@ -4,6 +4,7 @@ CONSTANTS
   Aux <- MCAux
   NodeKinds <- MCNodeKinds
   CallSet <- MCCallSet
+  Twin <- MCTwin
   N = 2
   MaxCalls = 1
   SrcEnc = "none"
@@ -26,4 +27,9 @@ CONSTANTS
   WithNullObj = FALSE
   WithScalarObj = TRUE
   CallOps = {"ref"}
+  WithTwin = FALSE
+  CFIndirect = FALSE
+  PlainIdentity = FALSE
+  KeyByNumber = FALSE
+  CryptProbeDirectOnly = FALSE
 INVARIANTS Terminates
